@@ -98,7 +98,7 @@ def _run(ctx, tier, exe, wd):
         with open(casefile, "w") as f:
             f.write(json.dumps(c, separators=(",", ":")) + "\n")
         cases, types, ncases = [want], [c["t"]], 1
-    ctx.log("domain: %d field sequences, %d of them with an unspecified placement (two admissible maps) (TLC %.0fs)" %
+    ctx.log("domain: %d field sequences, %d of them with an unspecified placement (several admissible maps) (TLC %.0fs)" %
             (ncases, nunspec, cs["wall_s"]))
 
     # 3. replay on the real code, in parallel chunks ---------------------------------------------------------
@@ -179,10 +179,11 @@ def _run(ctx, tier, exe, wd):
     bylen = {}
     flips = 0
     nontrivial = 0
-    taken = {"shares": 0, "new_byte": 0}
+    taken = {"shares_everywhere": 0, "new_byte_everywhere": 0, "mixed": 0}
     for r in rr:
         if r.get("na", 1) > 1:
-            taken["shares" if sum(r["wl"]) == min(sum(a) for a in altlens[r["id"]]) else "new_byte"] += 1
+            tot = [sum(a) for a in altlens[r["id"]]]
+            taken["shares_everywhere" if sum(r["wl"]) == min(tot) else "new_byte_everywhere" if sum(r["wl"]) == max(tot) else "mixed"] += 1
     for (k, p) in cases:
         bylen[len(k)] = bylen.get(len(k), 0) + 1
         if len(k) > 1:
@@ -213,10 +214,12 @@ def _run(ctx, tier, exe, wd):
          "+ 5 fields in the slave part over the 9 kinds that differ in bookkeeping"
          if ctx.thorough else
          "all sequences of 1..3 fields over both parts and all kinds + 4 fields in the slave part over 12 kinds (without D2C,BCD,TTM)") +
-        "; descending/overlapping bit successions are unspecified and not generated; S => P itself holds for any length (fix-point)",
+        "; S => P itself holds for any length (fix-point)",
         "dependence of decoding on a bit is observed by single-bit flips on 4 base data (two valid, two seeded random rich in 00/FF)",
-        "the placement of a bit field that starts above the range of a bit field which itself restarted a byte because of an equal "
-        "first bit is unspecified: P admits sharing and a new byte, but getLength/read/write must agree on one of them",
+        "unspecified placements (P admits sharing the open byte and a new byte, but getLength/read/write must agree on one of them and "
+        "all other laws hold): a bit field whose bits are free in the open byte but not above everything used there (descending / "
+        "interleaving order), and a bit field behind one that restarted a byte because of an equal first bit; overlapping bit ranges "
+        "are not generated",
         "getLength(part, max) with a variable-length field is only bounded by P (fixed span <= result <= max), exact for max = fixed span",
         "TLC evaluates the TLA+ definitions correctly; the harness logs what the functions returned",
     ]
